@@ -431,7 +431,8 @@ def _phasor(c, G, rng):
     prs = tuple(1 if a == 0 else rs[a] for a in range(3))
     for inv in (False, True):
         dets.append((ClosedSurfacePhasorPoyntingFluxDetector(name=f"cs{'i' if inv else 'f'}", partial_grid_shape=rs, inverse=inv, wave_characters=_waves()[:1], dtype=jnp.complex128), lo))
-        dets.append((PhasorPoyntingFluxDetector(name=f"pp{'i' if inv else 'f'}", partial_grid_shape=prs, direction="+", inverse=inv, wave_characters=_waves()[:1], dtype=jnp.complex128), lo))
+        dets.append((PhasorPoyntingFluxDetector(name=f"pp{'i' if inv else 'f'}", partial_grid_shape=prs, direction="+", inverse=inv,
+                                                fixed_propagation_axis=None if sum(v == 1 for v in prs) == 1 else 0, wave_characters=_waves()[:1], dtype=jnp.complex128), lo))
     S = mini_scene(shape, widths, dets)
     D, ST = S["det"], S["states"]
     vol = vol_weights(widths, shape, lo, rs)
@@ -528,7 +529,7 @@ def _poynting(c, G, rng):
     shape, lo, rs, widths = G["shape"], G["lo"], G["rs"], G["widths"]
     P = fdtdx.PoyntingFluxDetector
     # (tag, region shape, propagation axis, fixed_propagation_axis)
-    regions = [(f"plane{a}", _plane(rs, a), a, None) for a in range(3)] + [("thick", rs, 1, 1), ("line", (1, 1, rs[2]), 0, 0), ("cell", (1, 1, 1), 2, 2)]
+    regions = [(f"plane{a}", _plane(rs, a), a, None if sum(v == 1 for v in _plane(rs, a)) == 1 else a) for a in range(3)] + [("thick", rs, 1, 1), ("line", (1, 1, rs[2]), 0, 0), ("cell", (1, 1, 1), 2, 2)]
     dets = []
     for tag, prs, a, fixed in regions:
         for dr in ("+", "-"):
